@@ -1,1 +1,2 @@
 import Proofs.C17
+import Proofs.C13
